@@ -241,7 +241,7 @@ def checkNoInc (lines : List (List Char)) (chk : Asm.Assembly → Bool) : Bool :
              Asm.orgOK ss3 false &&
              (match Asm.assignAddrs ss3 0 with
               | .ok ss4 =>
-                match Asm.fixAll ss4 0 ss4 with
+                match Asm.fixAllL t ss4 with
                 | .ok ss5 =>
                   match Asm.evalSyms ss5 t t with
                   | .ok t1 =>
@@ -289,7 +289,7 @@ theorem checkNoInc_sound {fs : Asm.Files} {lines : List (List Char)} {chk : Asm.
             cases h5 : Asm.assignAddrs ss3 0 with
             | ok ss4 =>
               simp only [h5] at h ⊢
-              cases h6 : Asm.fixAll ss4 0 ss4 with
+              cases h6 : Asm.fixAllL t ss4 with
               | ok ss5 =>
                 simp only [h6] at h ⊢
                 cases h6e : Asm.evalSyms ss5 t t with
